@@ -154,6 +154,12 @@ def handleC14 : List String → Option String
     some (match read H algTable strict wire kr now rm ctx multi with
       | .error e => c14Err e
       | .ok r => c14ShowRead r)
+  | ["c14.readi", it, wire, kr, now, rm, ctx, multi, strict, h] => do
+    let it ← parseBool it; let wire ← ofHex wire; let kr ← c14Keyring kr; let now ← now.toNat?; let rm ← ofHex rm
+    let ctx ← c14Ctx ctx; let multi ← parseBool multi; let strict ← parseBool strict; let H ← c14H h
+    some (match readI it H algTable strict wire kr now rm ctx multi with
+      | .error e => c14Err e
+      | .ok r => c14ShowRead r)
   | ["c14.usetsig", kr, keyname, alg] => do
     let kr ← c14Keyring kr; let keyname ← parseOptName keyname; let alg ← parseName alg
     some (match useTsig kr keyname alg with
